@@ -18,7 +18,8 @@ mkdir -p "$wt/SEED"; cp "$dst/demo.cpp" "$dst/run_demo.sh" "$wt/SEED/"
 ( cd "$wt" && git apply "$dst/patch.diff" ) || { echo "patch does not apply"; git -C /repo worktree remove --force "$wt"; exit 2; }
 ( cd "$wt" && cmake -G Ninja -B build . >/dev/null 2>&1 && cmake --build build -j8 >"$dst/build.log" 2>&1 ); build=$?
 ( cd "$wt" && ctest --test-dir build -j8 2>&1 | tail -3 >"$dst/ctest.log" ); grep -q "100% tests passed" "$dst/ctest.log"; tests=$?
-( cd "$wt" && git checkout -- Compiler/src/lex.yy.c Compiler/include/lex.yy.h 2>/dev/null; git apply -R --check "$dst/patch.diff" 2>/dev/null )
+# the CMake build may regenerate the scanner in the source tree: put the two files back to what the patch says
+( cd "$wt" && git checkout -- Compiler/src/lex.yy.c Compiler/include/lex.yy.h 2>/dev/null; git apply --include='Compiler/src/lex.yy.c' --include='Compiler/include/lex.yy.h' "$dst/patch.diff" 2>/dev/null; true )
 ( cd "$wt" && timeout 600 bash SEED/run_demo.sh >"$dst/demo_patched.log" 2>&1 ); patched=$?
 git -C /repo worktree remove --force "$wt" >/dev/null 2>&1
 echo "seed=$sid demo_clean_exit=$clean build_exit=$build ctest_ok=$((1-tests)) demo_patched_exit=$patched"
